@@ -88,10 +88,18 @@ func parse(aliasTag string, out any, data map[string][]string, files ...map[stri
 }
 
 // Parse data into the struct with gofiber/schema
-func parseToStruct(aliasTag string, out any, data map[string][]string, files ...map[string][]*multipart.FileHeader) error {
+func parseToStruct(aliasTag string, out any, data map[string][]string, files ...map[string][]*multipart.FileHeader) (err error) {
 	// Get decoder from pool
 	schemaDecoder := decoderPoolMap[aliasTag].Get().(*schema.Decoder) //nolint:errcheck,forcetypeassert // not needed
 	defer decoderPoolMap[aliasTag].Put(schemaDecoder)
+
+	// The decoder indexes slices with numbers taken from the keys ("items.-1.name"):
+	// input it cannot handle is a binding error, not a reason to take the server down
+	defer func() {
+		if r := recover(); r != nil {
+			err = fmt.Errorf("bind: %v", r)
+		}
+	}()
 
 	// Set alias tag
 	schemaDecoder.SetAliasTag(aliasTag)
